@@ -67,8 +67,17 @@ def run(tier):
     arg_sites = {}
     push_consts = []
     n_switch = 0
+    # only code that runs while parsing is concerned (a Display impl that spells '\n' and '\r' differently is not a parse)
+    from . import C01 as _C01m
+    _onpath = _C01m.parse_path_functions(F)
+
+    def _parses(kk):
+        root = kk
+        while root in F.fns and F.fns[root].kind == "Closure":
+            root = F.fns[root].d.get("closure_of")
+        return kk in _onpath or root in _onpath
     for k, f in sorted(F.fns.items()):
-        if f.crate != "saphyr_parser" or "::test" in k:
+        if f.crate != "saphyr_parser" or "::test" in k or not _parses(k):
             continue
         for bi, b in enumerate(f.blocks):
             if b["cleanup"]:
